@@ -335,6 +335,18 @@ def check_expectation(ctx):
         n_ok += 1
     if n_ok == 0:
         ctx.undecided(R4, ex.key + ":quadratic-form", "no dot product found in expectation()", ex)
+    # density-matrix branch: tr(rho O) is the trace of the *matrix* product. An element-wise product summed up is
+    # sum_ij rho_ij O_ij = tr(rho O^T): equal only for symmetric operators (every Pauli string with an even number of Y)
+    for c in body_walk(ex.node):
+        if isinstance(c, ast.Call) and isinstance(c.func, ast.Attribute) and c.func.attr == "multiply" and len(c.args) == 1:
+            a, b = norm(c.func.value), norm(c.args[0])
+            if {a, b} == {op, st}:
+                ctx.violation(R4, ex.key + ":trace-of-product", f"the density-matrix expectation uses the element-wise product {short(c)} (summed: tr(rho O^T)) instead of the trace of the matrix product rho * O: wrong for operators with an odd number of Y factors on a complex density matrix", f"{ex.module.relpath}:{c.lineno}")
+        if isinstance(c, ast.Call) and (dotted(c.func) or "").split(".")[-1] in ("multiply",) and len(c.args) == 2 and {norm(c.args[0]), norm(c.args[1])} == {op, st}:
+            ctx.violation(R4, ex.key + ":trace-of-product", f"the density-matrix expectation uses the element-wise product {short(c)} instead of the trace of the matrix product", f"{ex.module.relpath}:{c.lineno}")
+    prods = [n for n in body_walk(ex.node) if isinstance(n, ast.BinOp) and isinstance(n.op, (ast.Mult, ast.MatMult)) and [norm(n.left), norm(n.right)] in ([st, op], [op, st])]
+    if prods:
+        ctx.ok(R4, ex.key + ":trace-of-product", "density-matrix branch forms the matrix product of state and operator", f"{ex.module.relpath}:{prods[0].lineno}")
 
 
 # ----------------------------------------------------------------------------- D5
@@ -479,6 +491,14 @@ def run(ctx):
     check_sparse(ctx)
     check_expectation(ctx)
     check_pauli_expansion(ctx)
+    # the conversions are functions of their operands' current value: no memo on the operand, no module-level cache
+    from ..state import check_hidden_state
+    from .c20 import effects_for
+
+    conv = [ctx.repo.func(k) for k in (f"{SP}:get_sparse_operator", f"{SP}:expectation", f"{OU}:get_expectation_value", f"{OU}:reverse_qubit_order", f"{OU}:get_pauliop_from_matrix") if ctx.repo.has_func(k)]
+    conv += [ctx.repo.func(k) for k in ("operators._openfermion_utils.operator_utils:hermitian_conjugated", "operators._openfermion_utils.operator_utils:is_hermitian") if ctx.repo.has_func(k)]
+    check_hidden_state(ctx, "C09-D6 conversions-stateless", conv, effects_for(ctx), argument_caches=True)
+    ctx.floor("C09-D6", 5)
     ctx.floor("C09-D1", 6)
     ctx.floor("C09-D2", 6)
     ctx.floor("C09-D3", 15)
